@@ -115,6 +115,14 @@ func c04Scenario(rng *rand.Rand) *prodScenario {
 				ms.Headers = append(ms.Headers, hd)
 			}
 		}
+		if sc.Version.IsAtLeast(sarama.V0_11_0_0) && sc.Partitioner == "manual" && rng.Intn(12) == 0 {
+			// neither key nor value: a legal (if unusual) record; its identity travels in a header
+			ms.Key, ms.KeyNil, ms.Value, ms.ValNil = nil, true, nil, true
+			ms.Headers = []sarama.RecordHeader{{Key: []byte("vid"), Value: []byte(fmt.Sprintf("%d:", i))}}
+			if rng.Intn(2) == 0 {
+				ms.Headers, ms.Bare = nil, true // not even a header: judged by its position in the log
+			}
+		}
 		if tsMode == 1 {
 			ms.Ts = tsBase.Add(time.Duration(rng.Int63n(80e6) - 40e6))
 		} else if rng.Intn(3) == 0 {
@@ -140,6 +148,15 @@ func c04Scenario(rng *rand.Rand) *prodScenario {
 		sc.Faults = randomFaultWord(rng, 2+rng.Intn(8), weights)
 		for _, f := range sc.Faults {
 			sc.FaultCodes = append(sc.FaultCodes, pickCode(f, rng))
+		}
+	}
+	if len(sc.Faults) > 0 || sc.Idempotent || sc.Acks == sarama.NoResponse {
+		// records without any identifier are only judged in fault-free runs (no resends, no duplicates)
+		for _, ms := range sc.Msgs {
+			if ms.Bare {
+				ms.Bare = false
+				ms.Headers = []sarama.RecordHeader{{Key: []byte("vid"), Value: []byte(fmt.Sprintf("%d:", ms.ID))}}
+			}
 		}
 	}
 	if rng.Intn(3) == 0 {
